@@ -118,7 +118,8 @@ func (x *Xlat) merge(a, b *State) *State {
 	if cond.Size() > 6 {
 		cond = x.ctx.Define("mc", cond)
 	}
-	for k, va := range a.env {
+	for _, k := range sortedKeys(a.env) {
+		va := a.env[k]
 		vb, ok := b.env[k]
 		if !ok {
 			if isRegionKey(k) {
@@ -135,7 +136,8 @@ func (x *Xlat) merge(a, b *State) *State {
 		}
 		out.env[k] = x.ctx.Define("m$"+k, Ite(cond, va, vb))
 	}
-	for k, vb := range b.env {
+	for _, k := range sortedKeys(b.env) {
+		vb := b.env[k]
 		if _, ok := a.env[k]; ok {
 			continue
 		}
